@@ -334,7 +334,8 @@ LOADS = ["gettz_name", "gettz_second", "gettz_space", "gettz_colon",
          "bundle", "gettz_bundle", "sibling", "sibling", "gettz_env",
          "gettz_env_colon", "gettz_localtime_abs", "gettz_localtime_rel",
          "gettz_localtime_colon", "tzfile_stream_forward_only",
-         "tzfile_stream_read_only", "gettz_abs_blank", "tzfile_path_blank"]
+         "tzfile_stream_read_only", "gettz_abs_blank", "tzfile_path_blank",
+         "tzfile_stream_offset"]
 
 
 def gen_loads(rng, n):
@@ -657,6 +658,14 @@ class Loader(object):
                 return tz.gettz()
             finally:
                 self.world.set_tz(None)
+        if k == "tzfile_stream_offset":
+            # the zone's bytes start somewhere inside a bigger stream (after
+            # an index, after another zone): decoding starts at the stream's
+            # position
+            prefix = ZW.zone_bytes(ZW.simple_zone(5)) + b"index\0"
+            st = io.BytesIO(prefix + self.data)
+            st.seek(len(prefix))
+            return tz.tzfile(st, filename="embedded")
         if k in ("gettz_abs_blank", "tzfile_path_blank"):
             # an absolute path with a blank in a directory name, next to a
             # twin directory spelled with an underscore that holds OTHER data
@@ -1187,7 +1196,12 @@ def judge_fault_result(ctx, op, z, ref, instants, label, armed, data):
             if isinstance(z, tz.tzfile) and z == other:
                 ctx.probe("fallback_second_tzpath")
                 return
-            if not isinstance(z, tz.tzfile):
+            if not isinstance(z, tz.tzfile) and op[0] in (
+                    "gettz_second", "gettz_space"):
+                # (a name that exists in one directory only: with that file
+                # unreadable the later stages of the chain are all there is;
+                # "Area/Zone" also exists, intact, in the second directory,
+                # so for it a later stage is never right)
                 ctx.probe("fallback_later_stage")
                 return
         # A torn file (truncated inside the version-1 block) is not a
